@@ -6,13 +6,13 @@ def run(tier, vd):
     sd = seed()
     cfgs = [('{"h1","h2"}', 1, 3, 2)] if tier == "quick" else [('{"h1","h2"}', 1, 4, 3), ('{"h1","h2","h3"}', 2, 3, 2)]
     for (hosts, k, mj, ms) in cfgs:
-        c = {"Hosts": hosts, "K": k, "Jumps": "{1,999,1000,59999,60000}", "MaxJumps": mj, "MaxSend": ms, "DevNoExpiry": False, "DevNoRateLimit": False, "DevLearnBroadcast": False}
+        c = {"Hosts": hosts, "K": k, "Jumps": "{1,999,1000,59999,60000}", "MaxJumps": mj, "MaxSend": ms, "DevNoExpiry": False, "DevNoRateLimit": False, "DevLearnBroadcast": False, "DevRefreshOnSend": False}
         r = tlc("Neighbor", write_cfg("Neighbor_c16", cfg_text(c, ["NoBad", "CacheBound"], properties=["NoLoss"])), workers=12, tag="c16.mc", timeout=2400, collect=())
         if r.violated:
             raise ToolError("Neighbor model violates %s (log %s)" % (r.violated, r.log))
         vd.add_model("Neighbor hosts=%s K=%d jumps<=%d sends<=%d" % (hosts, k, mj, ms), r, "cache with eviction/expiry, global 1 s limiter, ARP replies incl. non-unicast, clock jumps across 1 s / 60 s")
-    for dev in ("DevNoExpiry", "DevNoRateLimit", "DevLearnBroadcast"):
-        c = {"Hosts": '{"h1","h2"}', "K": 1, "Jumps": "{1,999,1000,59999,60000}", "MaxJumps": 3, "MaxSend": 2, "DevNoExpiry": False, "DevNoRateLimit": False, "DevLearnBroadcast": False}
+    for dev in ("DevNoExpiry", "DevNoRateLimit", "DevLearnBroadcast", "DevRefreshOnSend"):
+        c = {"Hosts": '{"h1","h2"}', "K": 1, "Jumps": "{1,999,1000,59999,60000}", "MaxJumps": 3, "MaxSend": 2, "DevNoExpiry": False, "DevNoRateLimit": False, "DevLearnBroadcast": False, "DevRefreshOnSend": False}
         c[dev] = True
         r = tlc("Neighbor", write_cfg("NeighborNeg", cfg_text(c, ["NoBad", "CacheBound"])), workers=4, tag="c16.neg." + dev, timeout=600, collect=())
         vd.cov["models"].append({"model": "Neighbor negative control " + dev, "violated": r.violated, "distinct_states": r.distinct})
@@ -32,7 +32,7 @@ def run(tier, vd):
         return False
     canary_check(vd, "NeighTrace", files[0], mut, "N1", "c16.N1", max_runs=80)
     vd.cov["exhaustive"] = True
-    vd.assumptions += ["IPv4/ARP on Ethernet; NDISC and IEEE 802.15.4 are exercised by the 6LoWPAN world only", "discovery spacing is judged globally: any two ARP requests are at least 1 s apart (the literal reading of the statement)",
+    vd.assumptions += ["IPv4 / ARP and IPv6 / neighbour discovery on Ethernet (chosen per run); IEEE 802.15.4 neighbours are exercised by the 6LoWPAN world only", "discovery spacing is judged globally: any two ARP requests are at least 1 s apart (the literal reading of the statement)",
                        "any frame from a neighbor counts as confirming traffic (the code refreshes on unicast ones only)"]
 
 
